@@ -10,7 +10,7 @@ From Coquelicot Require Import Coquelicot.
 From OV.base Require Import Num.
 From OV.model Require Import M_C08 M_C08b M_C11s M_C08s.
 From OV.proofs Require Import L_C11s L_C11e L_C11u.
-From OV.proofs Require Import L_C08 L_C08b L_C08c L_C08d L_C08e L_C08s.
+From OV.proofs Require Import L_C08 L_C08b L_C08c L_C08d L_C08e L_C08s L_C08t.
 Local Open Scope R_scope.
 Notation M := (mat R).
 
@@ -232,7 +232,7 @@ Theorem C08_kirchhoff_symmetric_multibranch : forall lss L1 L2 L3 p Fv1 Fv2 Fv3 
   exists P : M, curve_diff (E_mb lss p Fv1 Fv2 Fv3 dt) H (mddot P) /\ msym (mmul P (mtr (defgrad H))).
 Proof. exact mb_kirchhoff. Qed.
 (* NOT PROVED: the differentiability hypotheses LogSqrtDiffAt / PowDiffAt themselves for the spectral functions at a general symmetric
-   positive definite argument (Daleckii-Krein; C10/C12's subject) -- they are tied to TensorMath.log_sqrt_symm / pow_symm by the stream
+   positive definite argument (at the identity they are proved: end of this file) (Daleckii-Krein; C10/C12's subject) -- they are tied to TensorMath.log_sqrt_symm / pow_symm by the stream
    spec_diff_checks (jax.jvp is linear and equals the difference quotient along symmetric curves through C0 = F^T F / (F Fv^-1)^T (F Fv^-1));
    Kirchhoff symmetry of the phase-field model for phase <> 0 at det F = 1 exactly (kink of the volumetric split).  The algebraic form: *)
 Theorem C08_kirchhoff_symmetric_form_partial : forall F S : M, msym S -> msym (mscal 2 (mmul F (mmul S (mtr F)))).
@@ -273,6 +273,28 @@ Theorem C08_rest_energies_unconditional : forall p4_ p5_ p6_ p8_ hvp eqps dt, 0 
   E_hv lss_R hvp mid dt mzero = 0 /\ E_mb lss_R p8_ mid mid mid dt mzero = 0 /\ E_pf_log lss_R p6_ 0 0 0 0 mzero = 0.
 Proof. exact unconditional_rest_energies. Qed.
 
+(* ---- the differentiability hypotheses AT THE IDENTITY are theorems too (the eigen-decomposition may depend discontinuously on the
+        argument; the remainder spectral f A - f(1) I - f'(1)(A - I) = V diag(r(w_i)) V^T is O(|A - I|^2) in the Frobenius norm) ---- *)
+Theorem C08_log_sqrt_diff_at_identity_of_spectral_function : forall eigh : M -> @eig R, solver_ok eigh -> LogSqrtDiffAtId (lss_spec eigh).
+Proof. exact lss_spec_LogSqrtDiffAtId. Qed.
+Theorem C08_pow_diff_at_identity_of_spectral_function : forall eigh : M -> @eig R, solver_ok eigh -> PowDiffAtId (pw_spec eigh).
+Proof. exact pw_spec_PowDiffAtId. Qed.
+(* general form: any scalar function with a quadratic expansion at 1 *)
+Theorem C08_spectral_function_differentiable_at_identity : forall (eigh : M -> @eig R) (f : R -> R) (f1 f' K delta : R),
+  solver_ok eigh -> 0 <= K -> 0 < delta ->
+  (forall w, Rabs (w - 1) <= delta -> Rabs (f w - f1 - f' * (w - 1)) <= K * ((w - 1) * (w - 1))) ->
+  forall (C : R -> M) (C' : M), (forall t, msym (C t)) -> C 0 = mid -> mderive C 0 C' -> mderive (fun t => spectral eigh f (C t)) 0 (mscal f' C').
+Proof. exact spectral_diff_at_id. Qed.
+(* hence zero stress at rest of every option that goes through the spectral functions, with NO hypothesis on them (lss_R, pw_R) *)
+Theorem C08_rest_stress_unconditional : forall D,
+  (forall p, is_derive (fun t => E_le_log lss_R p (mscal t D)) 0 0) /\
+  (forall p eqps, is_derive (fun t => E_j2_log lss_R p eqps mid (mscal t D)) 0 0) /\
+  (forall p eqps, is_derive (fun t => E_j2_seth_hill pw_R p eqps mzero (mscal t D)) 0 0) /\
+  (forall p g0 g1 g2, is_derive (fun t => E_pf_log lss_R p 0 g0 g1 g2 (mscal t D)) 0 0) /\
+  (forall p dt, 0 < dt -> (let '(_, _, _, tau) := p in 0 < tau) -> is_derive (fun t => E_hv lss_R p mid dt (mscal t D)) 0 0) /\
+  (forall p dt, 0 < dt -> mb_taus_pos p -> is_derive (fun t => E_mb lss_R p mid mid mid dt (mscal t D)) 0 0).
+Proof. exact unconditional_rest_stress. Qed.
+
 Example C08_nonvacuous :
   rotation (mk 0 (-1) 0 1 0 0 0 0 1) /\ 0 < JJ (mk (/ 2) (/ 4) 0 0 (/ 3) 0 0 0 0) /\ LogSqrtSpec (fun A => mscal (/ 2) (msub A mid))
   /\ PowSpec (fun A _ => A) /\ mdet (@mid R NumR) <> 0.
@@ -304,3 +326,4 @@ Print Assumptions C08_kirchhoff_symmetric_gent.
 Print Assumptions C08_rest_stress_j2_seth_hill.
 Print Assumptions C08_kirchhoff_symmetric_multibranch.
 Print Assumptions C08_spectral_functions_exist.
+Print Assumptions C08_rest_stress_unconditional.
